@@ -56,10 +56,7 @@ theorem lazy_demand {α β : Type} (per : α → List β) (xs : List α) (k : Na
   have := run_pulled per k (M.init xs) (by simpa [M.init] using hk)
   simp only [M.init, List.length_nil, Nat.sub_zero, Nat.zero_add] at this
   show (M.run per k ⟨xs, [], 0⟩).2.pulled = _
-  rw [this]
-  split
-  · omega
-  · rfl
+  rw [this, if_neg (by omega)]
 
 /-- … which suffices for `k` rows … -/
 theorem demand_suffices {α β : Type} (per : α → List β) (xs : List α) (k : Nat)
